@@ -48,7 +48,7 @@ def handle (inp out : String) : String :=
         let viol := pairs.findSome? fun (op, o) =>
           if (op == "s" || op == "c") then
             (if canon && o != "S1" && o != "C1" then some s!"serialization-changed-at-op-{op}:{o.take 12}" else none)
-          else if op.startsWith "v:" || op.startsWith "a:" || op.startsWith "w:" then
+          else if op.startsWith "v:" || op.startsWith "a:" || op.startsWith "w:" || op.startsWith "vu:" then
             match o.splitOn "/" with
             | [h, f] => if h.drop 1 != f.drop 1 then some s!"verdict-on-the-used-object-{h}-differs-from-fresh-{f}" else none
             | _ => some s!"malformed-output-{o}"
